@@ -335,7 +335,7 @@ func (im *BlockImporter) importVoteproofs(ir isaac.BlockItemReader) error {
 				return err
 			}
 
-			return nil
+			return isValidACCEPTVoteproofWithManifest(vps[1], im.m.Manifest())
 		}
 	}
 }
